@@ -14,6 +14,7 @@ mod c04;
 mod c01;
 mod c18;
 mod c03;
+mod c07;
 mod lin;
 
 use registry::Tier;
